@@ -599,7 +599,7 @@ func handleZMPOP(params internal.HandlerFuncParams) ([]byte, error) {
 
 			res := fmt.Sprintf("*%d", popped.Cardinality())
 
-			for _, m := range popped.GetAll() {
+			for _, m := range popped.GetSorted(policy == "max") {
 				res += fmt.Sprintf("\r\n*2\r\n$%d\r\n%s\r\n+%s", len(m.Value), m.Value, strconv.FormatFloat(float64(m.Score), 'f', -1, 64))
 			}
 
@@ -652,7 +652,7 @@ func handleZPOP(params internal.HandlerFuncParams) ([]byte, error) {
 	}
 
 	res := fmt.Sprintf("*%d", popped.Cardinality())
-	for _, m := range popped.GetAll() {
+	for _, m := range popped.GetSorted(policy == "max") {
 		res += fmt.Sprintf("\r\n*2\r\n$%d\r\n%s\r\n+%s",
 			len(m.Value), m.Value, strconv.FormatFloat(float64(m.Score), 'f', -1, 64))
 	}
